@@ -68,7 +68,7 @@ pub struct Case {
     pub mix: Mat,
     /// per-column offset added last (all zero in the "centred" class)
     pub offsets: Vec<f64>,
-    /// global factor 10^global_exp applied to the centred part
+    /// global factor 10^global_exp applied to the centred part (and, when negative, to the offsets)
     pub global_exp: i8,
     /// seed of the 50 competing random orthonormal frames
     pub frame_seed: u64,
@@ -189,7 +189,9 @@ pub fn build_x(c: &Case) -> Mat {
     let gs = 10f64.powi(c.global_exp as i32);
     for row in x.iter_mut() {
         for (j, v) in row.iter_mut().enumerate() {
-            *v = *v * gs + c.offsets.get(j).copied().unwrap_or(0.0);
+            // small-magnitude data (global_exp < 0): the offsets shrink with the data, so that the relative
+            // structure is that of the unit-scale cases
+            *v = *v * gs + c.offsets.get(j).copied().unwrap_or(0.0) * gs.min(1.0);
         }
     }
     x
@@ -238,7 +240,7 @@ pub fn case_strategy(tier: Tier) -> impl Strategy<Value = Case> {
                 any::<bool>(),
                 shape_strategy(p),
                 offsets_strategy(p),
-                prop_oneof![5 => Just(0i8), 2 => Just(1i8), 2 => Just(2i8)],
+                prop_oneof![5 => Just(0i8), 2 => Just(1i8), 2 => Just(2i8), 1 => Just(-2i8), 1 => Just(-3i8), 1 => Just(-5i8), 1 => Just(-6i8)],
                 (
                     any::<u64>(),
                     prop_oneof![
